@@ -19,5 +19,8 @@ with open(os.path.join(HERE, "seeded", "README.md"), "w") as f:
             "(nothing from /verif), compiles, passes the crate's 68 + 42 tests, and comes with a demonstration that fails with the change and passes "
             "without it. `lib/seedtool.py confirm` re-established all of that in a fresh worktree and ran the listed checks against the patched tree "
             "(`RV_REPO=<tree> ./bin/check <ID> --tier quick`).\n\n"
-            "| id | property | change | needs | confirmed | checks |\n|---|---|---|---|---|---|\n" + "\n".join(rows) + "\n")
+            "| id | property | change | needs | confirmed | checks |\n|---|---|---|---|---|---|\n" + "\n".join(rows) + "\n"
+            "\n## Prompts\n\n`prompts/` holds the texts the sub-agents were given (they saw nothing of /verif): `seed_prompt.txt` (one property), "
+            "`area_prompt.txt` (one source region; from round 8 on together with `avoid.txt`, the one-line summaries of the changes already "
+            "recorded), `harm_prompt.txt` (behaviour-preserving changes), `props_all.json` (the property texts).\n")
 print(len(rows), "rows")
